@@ -16,6 +16,7 @@ mk3, (p30, p31, p32) = tup_v(3)
 raw_a = Function('raw_a', Val, I)      # raw span (a, b) stored by the class fragment (C-span): start, end positions
 raw_b = Function('raw_b', Val, I)
 vidx = Function('vidx', Val, I)       # index of a metadata object in the sequence visit() yields
+is_conv = Function('is_position_info', Val, B)     # the value is a _PositionInfo: the object was converted by an earlier, finished parse
 
 
 def position_term(ex, cx, idx):
@@ -66,6 +67,11 @@ class FinalizeC(RtContract):
     def converted(self, ex, cx, v):
         a, b = raw_a(v), raw_b(v)
         return mk2(position_term(ex, cx, a), position_term(ex, cx, b - 1))
+
+    def isinstance_hook(self, cx, ex, node, a, cls, st):
+        if cls == '_PositionInfo' and isinstance(a, z3.ExprRef) and a.sort() == Val:
+            return is_conv(a)
+        return NotImplemented
 
     def hooks(self, cx, ex):
         def map_index(ex, node, st):
@@ -178,12 +184,13 @@ class FinalizeC(RtContract):
 
     def closed_form(self, ex, cx, H, upto):
         """pointwise description of the heap after the first `upto` visited instances were handled:
-        H[m] = converted(H0[m]) if m is the metadata of one of them and held a raw span, else H0[m]"""
+        H[m] = converted(H0[m]) if m is the metadata of one of them and held a RAW span, else H0[m] (nothing, or the _PositionInfo an
+        earlier, finished parse left there: an object of a nested parse that inline Python put into this result)"""
         m = Const('m', Val)
         H0 = cx.H0
         k = vidx(m)
         inimg = And(0 <= k, k < cx.VN, md(cx.VS[k]) == m)
-        return ForAll([m], Select(H, m) == If(And(inimg, k < upto, Select(H0, m) != NONE), self.converted(ex, cx, Select(H0, m)), Select(H0, m)))
+        return ForAll([m], Select(H, m) == If(And(inimg, k < upto, Select(H0, m) != NONE, Not(is_conv(Select(H0, m)))), self.converted(ex, cx, Select(H0, m)), Select(H0, m)))
 
     def loops(self, cx):
         def inv(ex, st):
@@ -196,7 +203,8 @@ class FinalizeC(RtContract):
             VS, H0, H = cx.VS, cx.H0, st.heap['position_info']
             cur = md(VS[i])
             st.assume(Implies(i < cx.VN, And(kind(VS[i]) == K_OBJ, md_owner(cur) == VS[i], vidx(cur) == i,
-                                             Or(Select(H0, cur) == NONE, self.is_raw(ex, Select(H0, cur))))))
+                                             Or(Select(H0, cur) == NONE, And(self.is_raw(ex, Select(H0, cur)), Not(is_conv(Select(H0, cur)))),
+                                                And(is_conv(Select(H0, cur)), truthy(Select(H0, cur)))))))
 
         return {1: LoopSpec(inv, havoc=havoc)}
 
